@@ -58,10 +58,10 @@ def header_hash():
     if _hdr_hash is None:
         h = hashlib.sha1()
         for p in sorted(glob.glob(os.path.join(REPO, '*', '*.h'))):
-            h.update(p.encode())
+            h.update(os.path.relpath(p, REPO).encode())
             h.update(open(p, 'rb').read())
         h.update(open(NKFACTS, 'rb').read() if os.path.exists(NKFACTS) else b'')
-        h.update(' '.join(FLAGS).encode())
+        h.update(' '.join(FLAGS).replace(REPO, '<repo>').encode())
         _hdr_hash = h.hexdigest()
     return _hdr_hash
 
